@@ -4,7 +4,10 @@
 //! arguments of every input type (lists, nested lists, input objects with required / defaulted /
 //! recursive fields, enums, custom scalars), a required argument, an interface with two
 //! implementers whose same-named fields differ in nullability (of the named type, of a list
-//! wrapper, of an inner list wrapper) / list wrapping (field merging shapes), a union, and custom directives for every executable location (one repeatable).
+//! wrapper, of an inner list wrapper) / list wrapping (field merging shapes) and two fields (`xn`, `xm`)
+//! defined identically in the interface and both implementers (look-alike selection sets below
+//! different parent types), non-null list arguments with and without defaults whose item types differ
+//! in nullability at depth 1 and 2 (variable usages let in by a default), a union, and custom directives for every executable location (one repeatable).
 //! The fixture is valid by itself; every root operation type gets the entry fields.
 
 use crate::refmodel::ast::*;
@@ -16,23 +19,24 @@ const EXEC_LOCS: &str = "QUERY | MUTATION | SUBSCRIPTION | FIELD | FRAGMENT_DEFI
 fn fixture_text() -> String {
     format!(
         r#"
-interface XNode {{ xid: ID! xself: XNode xn: Int }}
-type XA implements XNode {{ xid: ID! xself: XA xn: Int xs: String! xl: [Int!] xln: [Int]! xll: [[Int]!] xu: XU
+interface XNode {{ xid: ID! xself: XNode xn: Int xm: Int }}
+type XA implements XNode {{ xid: ID! xself: XA xn: Int xm: Int xs: String! xl: [Int!] xln: [Int]! xll: [[Int]!] xu: XU
   xargs(i: Int, f: Float, s: String, b: Boolean, id: ID, e: XEnum, c: XScalar, o: XIn, l: [Int!], ll: [[Int]], req: Int!, nn: [XIn!]! = []): Int
-  xlist(l: [Int!], o: XIn): [XA!] }}
-type XB implements XNode {{ xid: ID! xself: XB xn: Int xs: String xl: [Int] xln: [Int] xll: [[Int]] xargs(i: Int, req: Int!): Int xe: XEnum }}
+  xlist(l: [Int!], o: XIn): [XA!]
+  xstrict(list: [Int!]!, opt: [Int]! = [], deep: [[Int!]]!, ostrict: [Int!]! = [1], nl: [Int]!, odeep: [[Int]!]! = []): Int }}
+type XB implements XNode {{ xid: ID! xself: XB xn: Int xm: Int xs: String xl: [Int] xln: [Int] xll: [[Int]] xargs(i: Int, req: Int!): Int xe: XEnum }}
 union XU = XA | XB
 enum XEnum {{ XA1 XB1 }}
 scalar XScalar
-input XIn {{ x: Int! y: String z: [XIn!] w: Int! = 1 e: XEnum l: [Int!] n: XIn }}
-directive @xonce(v: Int, b: Boolean! = true) on {EXEC_LOCS}
+input XIn {{ x: Int! y: String z: [XIn!] w: Int! = 1 e: XEnum l: [Int!] n: XIn sl: [Int]! = [] }}
+directive @xonce(v: Int, b: Boolean! = true, sl: [Int!]! = []) on {EXEC_LOCS}
 directive @xmany(o: XIn, l: [Int!]) repeatable on {EXEC_LOCS}
 "#
     )
 }
 
 fn root_fields_text() -> &'static str {
-    "type XRootFields { xnode: XNode xa: XA xu: XU xargs(i: Int, o: XIn, l: [Int!], ll: [[Int]], e: XEnum, c: XScalar, req: Int!): Int xlist(l: [Int!], o: XIn): [XA!] }"
+    "type XRootFields { xnode: XNode xa: XA xu: XU xargs(i: Int, o: XIn, l: [Int!], ll: [[Int]], e: XEnum, c: XScalar, req: Int!): Int xlist(l: [Int!], o: XIn): [XA!] xstrict(list: [Int!]!, opt: [Int]! = [], deep: [[Int!]]!): Int }"
 }
 
 pub fn fixture() -> &'static Document {
